@@ -77,10 +77,14 @@ type Case struct {
 	Root int     `json:"root"`
 }
 
-// watchdog runs f and reports non-termination if it has not returned after 20
-// seconds (the calls normally take microseconds, so the headroom is 10^6). The
-// property claims termination, so running out of this budget is a violation;
-// a panic inside f is passed on to the caller's goroutine.
+// watchdog runs f and reports non-termination. The calls normally take microseconds. A wall
+// clock alone cannot tell a loop from a starved process (on a machine loaded 8 times over, a
+// 20 s limit did fire on a call that was merely waiting for its turn), so after a grace period
+// a sibling goroutine of the same process starts doing fixed units of busy work: the Go
+// scheduler shares the process's CPU between the two about equally, so once the sibling has been
+// granted 10 s worth of CPU while f still has not returned, f has had its 10 s as well and is
+// looping. The property claims termination, so that is a violation; a panic inside f is passed
+// on to the caller's goroutine.
 func watchdog(what string, f func()) {
 	done := make(chan interface{}, 1)
 	go func() {
@@ -92,10 +96,42 @@ func watchdog(what string, f func()) {
 		if r != nil {
 			panic(r)
 		}
-	case <-time.After(20 * time.Second):
-		ev.BudgetPanic(what + " did not return within 20 s")
+		return
+	case <-time.After(2 * time.Second):
+	}
+	// grace period over: measure the CPU actually granted to a sibling
+	stop := make(chan struct{})
+	granted := make(chan struct{}, 1)
+	go func() {
+		const unitsNeeded = 400 // x ~25 ms of busy work
+		x := uint64(88172645463325252)
+		for u := 0; u < unitsNeeded; u++ {
+			for i := 0; i < 12_000_000; i++ {
+				x ^= x << 13
+				x ^= x >> 7
+				x ^= x << 17
+			}
+			select {
+			case <-stop:
+				return
+			default:
+			}
+		}
+		busySink = x
+		granted <- struct{}{}
+	}()
+	select {
+	case r := <-done:
+		close(stop)
+		if r != nil {
+			panic(r)
+		}
+	case <-granted:
+		ev.BudgetPanic(what + " did not return although a sibling goroutine was granted 10 s of CPU meanwhile")
 	}
 }
+
+var busySink uint64
 
 // refIDom is the definitional reference: reachability r from root, dom[d][v] (d dominates v,
 // decided by deleting d and re-running reachability) and the closest strict dominator of every
